@@ -247,7 +247,7 @@ EXPLIKE_IM = {"sin", "cos", "tan", "sec", "csc", "cot"}                         
 
 
 def clamp_for(fn, x, y, real):
-    lim = 600.0 if real == 8 else 80.0
+    lim = 80.0 if real == 4 else 600.0
     if fn in EXPLIKE_RE and abs(x) > lim:
         x = math.copysign(lim * 0.97, x)
     if fn in EXPLIKE_IM and abs(y) > lim:
@@ -429,6 +429,9 @@ def tie2(ctx, suspects):
         plan.append(("libm", list(CSW), RSW, real, per, None, False))
         plan.append(("fallback", [], [], real, per, None, False))
     plan.append(("cfallback", [], RSW, 8, per, None, False))          # complex fallbacks over libm real helpers
+    # long double build (A_SIZE_REAL = 16): the a_real-typed constants and literals must carry 64 mantissa bits
+    plan.append(("libm", list(CSW), RSW, 16, max(4, per // 2), None, False))
+    plan.append(("cfallback", [], RSW, 16, max(4, per // 2), None, False))
     if not ctx.quick:
         plan.append(("cfallback", [], RSW, 4, per // 4, None, False))
         for s in CSW:
@@ -457,7 +460,7 @@ def tie2(ctx, suspects):
         results = list(ex.map(run_plan, plan))
     seen_keys = set()
     for (tag, on, ron, real, n, only, extreme), cbin, cases, res in results:
-        cfgname = "%s/%s" % (tag, "double" if real == 8 else "float")
+        cfgname = "%s/%s" % (tag, {8: "double", 4: "float", 16: "long double"}[real])
         st = per_cfg.setdefault(cfgname, {"evaluations": 0, "ok": 0, "skipped": 0, "failures": 0})
         for (fn, a), (v, o) in zip(cases, res):
             st["evaluations"] += 1
@@ -495,7 +498,7 @@ def tie2(ctx, suspects):
         got = [fcorr.fval(b) for b in o2]
         what = ("a_complex_%s(%s) = (%s) in configuration %s/%s; exact value (%s, %s); error %s eps*|exact| with condition number %s "
                 "(tolerance %d eps max(1,cond))" % (fn, ", ".join(repr(x) for x in small), ", ".join(repr(g) for g in got), tag,
-                                                     "double" if real == 8 else "float", t[3], t[4], t[1], t[2], K_TOL))
+                                                     {8: "double", 4: "float", 16: "long double"}[real], t[3], t[4], t[1], t[2], K_TOL))
         ctx.report(key, what, {"function": "a_complex_" + fn, "args": [repr(x) for x in small], "args_hex": [hx(x) for x in small],
                                "configuration": {"A_HAVE_C*": on_of(tag), "tag": tag, "A_SIZE_REAL": real},
                                "observed": [repr(g) for g in got], "expected": [t[3], t[4]],
@@ -573,8 +576,34 @@ def load_corpus():
     return cases
 
 
+TIE_FILES = sorted(H.glob("TieCx*.v"))
+
+
+def tie_names():
+    """every function of complex.c / complex.h that has a tie theorem in harness/C10/TieCx.v"""
+    import re
+    return [n for f in TIE_FILES for n in re.findall(r"Theorem tie_(a_complex_\w+)", f.read_text())]
+
+
+def translator_tie(ctx):
+    # third tie: complex.c / complex.h are REGENERATED by the translator (all A_HAVE_C* off: every fallback body is compiled)
+    # and re-tied to the proved model, one theorem per function, for every NumOps instance
+    ctx.translate_and_tie([("src/complex.c", tie_names())], "GenCx", TIE_FILES, have=1, real=8,
+                          overrides={k: 0 for k in CSW}, externs={"acosh": 1, "atanh": 1, "asinh": 1}, timeout=1500)
+
+
 def run(ctx):
+    import threading
     ctx.prove()
+    th = threading.Thread(target=translator_tie, args=(ctx,))
+    th.start()
+    try:
+        run_ties(ctx)
+    finally:
+        th.join()
+
+
+def run_ties(ctx):
     ctx.assumptions += [
         "floating-point rounding is not part of the theorems: accuracy (K=%d) is sampled against a 45-digit mpmath reference" % K_TOL,
         "C built with gcc -O2 -ffp-contract=off from the current tree; A_HAVE_* configurations generated by tools/vlib.py",
